@@ -60,12 +60,14 @@ namespace
   // passing the very parameters the solver was built with
   bool g_three_arg = false;
 
-  template<class Solver, class Params>
-  std::string threadWork(Solver& solver, const Params& params, std::uint64_t seed, std::size_t ncell, int rounds)
+  /// `templ`: a State every thread may COPY instead of asking the solver for a new one (a copy is the thread's own
+  /// State: nothing reachable from it may be shared with the template or with the other copies)
+  template<class Solver, class Params, class StateT>
+  std::string threadWork(Solver& solver, const Params& params, const StateT& templ, std::uint64_t seed, std::size_t ncell, int rounds)
   {
     Rng r{ seed };
     std::string out;
-    auto state = solver.GetState();
+    auto state = (seed % 2) ? StateT(templ) : solver.GetState();
     for (int k = 0; k < rounds; ++k)
     {
       for (std::size_t c = 0; c < ncell; ++c)
@@ -101,7 +103,12 @@ namespace
         out += vh::hexd(v) + ",";
       out += ";";
       if (k % 3 == 2)
-        state = solver.GetState();   // a fresh State mid-way
+      {
+        if (seed % 4 < 2)
+          state = solver.GetState();   // a fresh State mid-way
+        else
+          state = templ;               // ... or a copy-assigned one
+      }
     }
     return out;
   }
@@ -115,12 +122,13 @@ namespace
                       .SetReactions(mechanism())
                       .SetNumberOfGridCells(ncell)
                       .Build();
+    const auto templ = solver.GetState();
     std::vector<std::string> serial(nthreads), par(nthreads);
     for (int t = 0; t < nthreads; ++t)
-      serial[t] = threadWork(solver, params, seed * 1000 + t, ncell, rounds);
+      serial[t] = threadWork(solver, params, templ, seed * 1000 + t, ncell, rounds);
     std::vector<std::thread> th;
     for (int t = 0; t < nthreads; ++t)
-      th.emplace_back([&, t]() { par[t] = threadWork(solver, params, seed * 1000 + t, ncell, rounds); });
+      th.emplace_back([&, t]() { par[t] = threadWork(solver, params, templ, seed * 1000 + t, ncell, rounds); });
     for (auto& x : th)
       x.join();
     int diff = 0;
@@ -130,7 +138,7 @@ namespace
     // serial again afterwards: the solver object must behave as before
     int after = 0;
     for (int t = 0; t < nthreads; ++t)
-      if (threadWork(solver, params, seed * 1000 + t, ncell, rounds) != serial[t])
+      if (threadWork(solver, params, templ, seed * 1000 + t, ncell, rounds) != serial[t])
         ++after;
     return std::string("tsan cfg=") + name + " threads=" + std::to_string(nthreads) + " differ=" + std::to_string(diff) +
            " after=" + std::to_string(after);
